@@ -127,7 +127,7 @@ class MetaCase:
 
 def build_case(ch: G.Chooser, core: Optional[bool] = None) -> MetaCase:
     if core is None:
-        core = ch.chance(0.12)
+        core = ch.chance(0.06)  # a parse with the core definitions costs 60 ms instead of 2 ms; the hash does not depend on them
     base = G.build_program(ch, import_coredefs=core, auto_pad=True if ch.chance(0.8) else None, min_messages=2, allow=ALLOW)
     case = MetaCase(base)
     for _ in range(ch.integer(1, 2)):
@@ -616,7 +616,7 @@ def shard(idx: int, seed: int, n_meta: int, out_every: int, n_proc: int, n_stamp
     collect = []
     try:
         # outputs with the core definitions imported (core messages appear in Python / JS / MATLAB)
-        for k in range(2):
+        for k in range(1 if idx % 4 else 2):
             res.evaluations += 1
             check_outputs(G.build_program(rnd, import_coredefs=True, min_messages=2, allow=ALLOW), res)
         progs = [G.build_program(rnd, import_coredefs=(k % 3 == 0), min_messages=2, allow=ALLOW) for k in range(n_proc)]
@@ -638,9 +638,11 @@ def shard(idx: int, seed: int, n_meta: int, out_every: int, n_proc: int, n_stamp
 
 def run(ctx: RunContext) -> int:
     t0 = time.time()
-    n_meta = ctx.scale(45, 1500)
-    res = run_shards(shard, [(i, derive_seed(ctx.seed, i), n_meta, 5 if ctx.quick else 3, ctx.scale(3, 20), ctx.scale(2, 12),
-                              (not ctx.quick) and i < 4) for i in range(16)])
+    n_meta = ctx.scale(30, 1500)
+    q = ctx.quick
+    # subprocess cases (two fresh interpreters per batch; a fresh interpreter per generated module) are kept to a handful in quick
+    res = run_shards(shard, [(i, derive_seed(ctx.seed, i), n_meta, 6 if q else 3, (3 if i < 4 else 0) if q else ctx.scale(3, 20),
+                              (1 if i % 2 == 0 else 0) if q else ctx.scale(2, 12), (not q) and i < 4) for i in range(16)])
     return conclude(ctx, res, RULE, ASSUME, t0)
 
 
